@@ -150,8 +150,14 @@ func (t *Tree) Get(topic string) []interface{} {
 	t.mutex.Lock()
 	defer t.mutex.Unlock()
 
-	// get values
-	return t.get(topic, t.root)
+	// get values and return a copy, as the node's own slice is rewritten by
+	// later removals
+	values := t.get(topic, t.root)
+	if values == nil {
+		return nil
+	}
+
+	return append([]interface{}{}, values...)
 }
 
 func (t *Tree) get(topic string, node *node) []interface{} {
